@@ -94,9 +94,21 @@ type sliceMachine struct {
 	vals stats.Values
 }
 
+// setHealth sets the machine's health. Health is written only by the
+// machineManager's goroutine, which may read it without locking; other
+// goroutines (status updates, String) read it under s.mu.
+func (s *sliceMachine) setHealth(health machineHealth) {
+	s.mu.Lock()
+	s.health = health
+	s.mu.Unlock()
+}
+
 func (s *sliceMachine) String() string {
+	s.mu.Lock()
+	h := s.health
+	s.mu.Unlock()
 	var health string
-	switch s.health {
+	switch h {
 	case machineOk:
 		health = "ok"
 	case machineProbation:
@@ -482,7 +494,7 @@ func (m *machineManager) Do(ctx context.Context) {
 			heap.Remove(&m.schedQ, req.index)
 		case <-probationTimer.C():
 			mach := probation[0]
-			mach.health = machineOk
+			mach.setHealth(machineOk)
 			log.Printf("removing machine %s from probation", mach.Addr)
 			heap.Remove(&probation, 0)
 			heap.Push(&machQ, mach)
@@ -502,13 +514,13 @@ func (m *machineManager) Do(ctx context.Context) {
 				// to machine A will return an error, but we do not want to put
 				// machine A on probation.
 				log.Error.Printf("putting machine %s on probation after error: %v", mach, done.Err)
-				mach.health = machineProbation
+				mach.setHealth(machineProbation)
 				heap.Remove(&machQ, mach.index)
 				mach.lastFailure = time.Now()
 				heap.Push(&probation, mach)
 			case done.Err == nil && mach.health == machineProbation:
 				log.Printf("machine %s returned successful result; removing probation", mach)
-				mach.health = machineOk
+				mach.setHealth(machineOk)
 				heap.Remove(&probation, mach.index)
 				heap.Push(&machQ, mach)
 			case mach.health == machineLost:
@@ -563,7 +575,7 @@ func (m *machineManager) Do(ctx context.Context) {
 			case machineProbation:
 				heap.Remove(&probation, mach.index)
 			}
-			mach.health = machineLost
+			mach.setHealth(machineLost)
 			mach.Status.Done()
 		case <-logTicker.C:
 			// pending is in procs, so we convert it to machines.
